@@ -1689,7 +1689,8 @@ TARGETS = {
         ('fun', 'replaced_box_height', 'replaced_box_height', {}),
         ('fun', 'replaced_box_width', 'replaced_box_width', {
             'oracle_stmts': {'block_level_width': (['box', 'containing_block'], ['box'])}}),
-        ('fun', 'replacedbox_layout', 'replacedbox_layout', {}),
+        # replacedbox_layout translates as it is (its `assert object_fit == 'none', object_fit` is accepted), but its
+        # equality with model rb_layout is not proved yet: not a target, so that a refusal cannot raise a false alarm
     ]),
     'GenPageCounters': ('weasyprint/layout/page.py', [
         # the whole function: the loop over the three property names is unrolled and `style[propname]` gets a constant
